@@ -118,6 +118,7 @@ def run(ck):
     ck.add(deviation_model_counterexample="is violated" in dev.error)
     recs, ex = [], []
     rounds = 6 if ck.tier == "quick" else 40
+    dead = [False]
     with virtual_world(ck.seed) as loop:
         async def main():
             for rd in range(rounds):
@@ -179,8 +180,14 @@ def run(ck):
                     for x in (xa, xb):
                         x.telegrams.put_nowait(Telegram(destination_address=GroupAddress(a), direction=TelegramDirection.INCOMING, payload=pay,
                                                         source_address=IndividualAddress(0x1105)))
-                    await xa.telegrams.join()
-                    await xb.telegrams.join()
+                    try:        # a consumer that died (an exception escaped the eager decoding) never finishes the queue
+                        await asyncio.wait_for(xa.telegrams.join(), 30)
+                        await asyncio.wait_for(xb.telegrams.join(), 30)
+                    except TimeoutError:
+                        recs.append({"t": "eager", "table": tkind.get(a, "absent"), "has": 1, "expect": 0, "dec": 0, "decok": 0, "without": 0, "same": 0, "cb": 0})
+                        ex.append(f"{type(rv).__name__} at {a} (table: {table.get(a)!r}, {tkind.get(a, 'absent')}), {type(pay).__name__}({p}) -> the telegram queue of an instance no longer drains: its consumer task is dead")
+                        dead[0] = True
+                        break
                     ta = seen["a"][na:] or [None]
                     tb = seen["b"][nb:] or [None]
                     trans = xb.group_address_dpt.get(GroupAddress(a))
@@ -202,6 +209,8 @@ def run(ck):
                                  "same": 0 if diff else 1, "cb": 1 if len(ta) == len(tb) == 1 and ta[0] is not None and tb[0] is not None else 0})
                     ex.append(f"{type(rv).__name__} at {a} (table: {table.get(a)!r}, {tkind.get(a, 'absent')}), {type(pay).__name__}({p}) -> differing: {diff[:4]}"
                               + (f" {sa[diff[0]]} / {sb[diff[0]]}" if diff else ""))
+                if dead[0]:
+                    return
                 await stop_xknx(xa)
                 await stop_xknx(xb)
 
